@@ -107,11 +107,83 @@ fn alphabet(c: usize) -> Vec<Op> {
     a
 }
 
+/// mpc level: the same public configuration under every per-party tmp_dir assignment gives the same
+/// results and the same traffic shape, and leaves no file behind.
+fn mpc_level(rep: &mut Report, seed: u64, thorough: bool) {
+    use crate::circ;
+    use crate::runner::{Case, exec_mpc};
+    use crate::sim::{EvKind, Outcome, RunEnd};
+    let mut rng = ChaCha8Rng::seed_from_u64(seed ^ 0x19c);
+    let mut shapes: Vec<(usize, usize)> = vec![(2, 3), (2, 1200), (3, 7), (2, 2100), (3, 1001)];
+    if thorough {
+        shapes.extend_from_slice(&[(2, 5000), (4, 1001), (2, 9500), (3, 2500)]);
+    }
+    let cases: Vec<(usize, usize, u64)> = shapes.iter().map(|(n, a)| (*n, *a, rng.random())).collect();
+    let outs = parallel_for(cases.len(), threads(), |i| {
+        let (n, ands, s) = cases[i];
+        let mut rng = ChaCha8Rng::seed_from_u64(s);
+        let mut cfg = circ::random_gen_cfg(&mut rng, n, ands);
+        if ands > 500 { cfg.others = 60; cfg.extra_regs = 40; cfg.reuse_pct = 50; }
+        let c = circ::gen_circuit(&mut rng, &cfg);
+        let inputs = circ::random_inputs(&mut rng, &c);
+        let expected = circ::eval_clear(&c, &inputs);
+        let p_eval = rng.random_range(0..n);
+        let masks: Vec<Vec<bool>> = if n == 2 { vec![vec![false, false], vec![true, true], vec![true, false], vec![false, true]] } else { vec![vec![false; n], vec![true; n], (0..n).map(|p| p % 2 == 0).collect(), (0..n).map(|p| p == n - 1).collect()] };
+        let mut reference: Option<Vec<Vec<usize>>> = None;
+        let mut res: Vec<(String, Option<String>)> = vec![];
+        for m in &masks {
+            let mut case = Case::new(c.clone(), inputs.clone(), p_eval, (0..n).collect());
+            case.tmp = m.clone();
+            case.keep_bytes = false;
+            let ex = exec_mpc(case);
+            let name = m.iter().map(|b| if *b { 'F' } else { 'M' }).collect::<String>();
+            let mut sig = None;
+            if let RunEnd::HarnessError(e) = &ex.end {
+                res.push((name, Some(format!("harness:{e}"))));
+                continue;
+            }
+            if !(ex.end == RunEnd::AllFinished && ex.outcomes.iter().all(|o| matches!(o, Outcome::Done(Ok(v)) if *v == expected))) {
+                let d: Vec<String> = ex.outcomes.iter().map(crate::props::classify).collect();
+                sig = Some(format!("mpc does not return the clear-text result under a {} temp-file assignment ({})", if m.iter().all(|b| *b == m[0]) { "uniform" } else { "mixed" }, d.join(" / ")));
+            } else if !ex.leftover_files.is_empty() {
+                sig = Some("a file remains in a party's temp directory after mpc returned".to_string());
+            } else {
+                // traffic shape: per ordered pair the sequence of message lengths
+                let mut shape = vec![vec![]; n * n];
+                for e in &ex.net.log {
+                    if e.kind == EvKind::SendCall {
+                        shape[e.party * n + e.peer].push(e.len);
+                    }
+                }
+                match &reference {
+                    None => reference = Some(shape),
+                    Some(r) if *r != shape => sig = Some("traffic (message sizes per pair) depends on the parties' temp-file choice".to_string()),
+                    _ => {}
+                }
+            }
+            res.push((name, sig));
+        }
+        (n, ands, res)
+    });
+    for (n, ands, res) in outs {
+        for (name, sig) in res {
+            rep.evaluations += 1;
+            match sig {
+                Some(s) if s.starts_with("harness:") => rep.harness_error(s),
+                Some(s) => rep.violation(s, json!({"n": n, "and_gates": ands, "tmp_assignment(M=memory,F=file)": name})),
+                None => {
+                    rep.distinct.insert(format!("mpc n={n} ands={} tmp={name}", crate::props::c01::and_class(ands)));
+                }
+            }
+        }
+    }
+}
+
 pub fn run(tier: &str, seed: u64) -> i32 {
     let thorough = tier == "thorough";
     let mut rep = Report::new("C19", tier, seed, "exploration");
     rep.rule = "model-based: every operation sequence of length <= 4 (exhaustive) over {append(1 | c-1 | c | c+1 | 3c), iter(all), iter(take k then drop), chunks(all), chunks(take 1 then drop)} for c in {1,2,5}, plus random sequences up to length 12 and c up to 9, run against a Vec<Vec<u64>> model, the in-memory variant and the temp-file variant of FileOrMemBuf<u64>; afterwards the directory must be empty and the process must not have gained file descriptors. distinct = operation sequences; non-trivial = the sequence contains at least one append and one read".into();
-    rep.assumptions = vec!["element type u64 (the engine stores serde-serialisable share types the same way)".into(), "mpc-level equality under mixed tmp_dir is observed by C01 / C09 / C12".into()];
+    rep.assumptions = vec!["element type u64 (the engine stores serde-serialisable share types the same way)".into(), "mpc level: a few circuits on both sides of the 1000-gate batch boundary under all-memory, all-file and mixed assignments (more role assignments under C01 / C09 / C12)".into()];
     let mut seqs: Vec<(Vec<Op>, usize)> = vec![];
     for c in [1usize, 2, 5] {
         let a = alphabet(c);
@@ -164,6 +236,7 @@ pub fn run(tier: &str, seed: u64) -> i32 {
             }
         }
     }
+    mpc_level(&mut rep, seed, thorough);
     rep.set("exhaustive_sequences_len_le_4", json!(exhaustive));
     rep.set("random_sequences", json!(n_rand));
     rep.set("exhaustive", json!(false));
